@@ -7,7 +7,7 @@
    the free variables (sum_case_code), and, for one range with step 1, by the telescoping theorem of
    SumPolyProofs.v whose two premises are polynomial identities the generated instance files prove with
    `field`.  Arithmetic is exact (Q): Python's `/` on ints is a float division -- floats are outside. *)
-From Coq Require Import List ZArith QArith Bool.
+From Coq Require Import List ZArith QArith Qround Bool.
 Import ListNotations.
 Require Import Pyrefact.RangeModel Pyrefact.BoolEquivModel.
 Open Scope Z_scope.
@@ -20,7 +20,8 @@ Inductive aexp :=
 | ASub (a b : aexp)
 | AMul (a b : aexp)
 | ADiv (a b : aexp)
-| APow (a : aexp) (n : nat).
+| APow (a : aexp) (n : nat)
+| AFdiv (a b : aexp).   (* Python's floor division a // b *)
 
 Fixpoint qpow (q : Q) (n : nat) : Q := match n with O => 1%Q | S n' => (q * qpow q n')%Q end.
 
@@ -35,6 +36,7 @@ Fixpoint aeval (rho : nat -> Z) (e : aexp) : Q :=
   | AMul a b => (aeval rho a * aeval rho b)%Q
   | ADiv a b => (aeval rho a / aeval rho b)%Q
   | APow a n => qpow (aeval rho a) n
+  | AFdiv a b => inject_Z (Qfloor (aeval rho a / aeval rho b))
   end.
 
 (* integer value of a range bound / list element: no division *)
@@ -48,6 +50,10 @@ Fixpoint zeval (rho : nat -> Z) (e : aexp) : option Z :=
   | AMul a b => match zeval rho a, zeval rho b with Some x, Some y => Some (x * y) | _, _ => None end
   | ADiv _ _ => None
   | APow a n => option_map (fun x => Z.pow x (Z.of_nat n)) (zeval rho a)
+  | AFdiv a b => match zeval rho a, zeval rho b with
+                 | Some x, Some y => if y =? 0 then None else Some (x / y)
+                 | _, _ => None
+                 end
   end.
 
 (* one `for x in ...` clause: a range (1-3 arguments are normalised by the harness reader) or a
